@@ -215,14 +215,6 @@ theorem comps_missing_number (f npiece : Nat) (sl : Slots) (s rest : Bytes) (n :
 
 /-! ### the encoder's field layouts are parsed into exactly their numbers (closure of formatter into parser, field level) -/
 
-private theorem ind_d : lookup DMSC.dmsindicators 100 = ((0 : Nat) : Int) := by decide
-private theorem ind_m : lookup DMSC.dmsindicators 39 = ((1 : Nat) : Int) := by decide
-private theorem ind_s : lookup DMSC.dmsindicators 34 = ((2 : Nat) : Int) := by decide
-private theorem ind_c : lookup DMSC.dmsindicators 58 = 3 := by decide
-
-private theorem nd (c : Nat) (h : c = 100 ∨ c = 39 ∨ c = 34 ∨ c = 58) : ¬ IsDigit c ∧ c ≠ 46 := by
-  unfold IsDigit; omega
-
 def numOf (ds : Bytes) : Num := { int := digitsVal 0 ds, nint := ds.length }
 def numFracOf (ds fs : Bytes) : Num :=
   { int := digitsVal 0 ds, nint := ds.length, point := true, frac := digitsVal 0 fs, nfrac := fs.length }
